@@ -14,7 +14,9 @@
      the result of into_struct / extend_struct unchanged, for EVERY event stream.
    Buffer sizes are tokenizer behaviour (same event list): validated by execution only.
    Only statements; every proof is `exact <lemma of Proofs/SkelProofs.v>`. *)
+From Coq Require Import String.
 From XSG.Model Require Import Strings Necessity Element Parser Dom.
+Local Open Scope list_scope.
 From XSG.Proofs Require Import ElementProofs SkelProofs.
 
 Theorem C11_text_cdata : forall r k, absorb NText r k = absorb NCData r k.
@@ -76,6 +78,18 @@ Proof. exact expand_extend_struct_ev. Qed.
 Theorem C11_events_of_unempty : forall d, events_of (unempty d) = expand (events_of d).
 Proof. exact events_of_unempty. Qed.
 
+(* non-vacuity: two different documents with the same structure (text vs CDATA, comments,
+   `<b/>` vs `<b></b>`, text before vs after the children) and a parent satisfying Uniq *)
+Example C11_example :
+  let d  := NElem (s "a") false [s "k"] [NText; NElem (s "b") true [] []; NMisc; NElem (s "b") false [s "x"] [NCData]] in
+  let d' := NElem (s "a") false [s "k"] [NMisc; NElem (s "b") false [] []; NElem (s "b") false [s "x"] [NText; NMisc]; NCData; NText] in
+  d <> d' /\ skel (unempty d) = skel (unempty d') /\ Uniq wrapper
+  /\ absorb d wrapper [] = absorb d' wrapper [].
+Proof.
+  cbv zeta. split; [discriminate|]. split; [vm_compute; reflexivity|]. split; [exact Uniq_wrapper|].
+  vm_compute; reflexivity.
+Qed.
+
 Print Assumptions C11_text_cdata.
 Print Assumptions C11_misc.
 Print Assumptions C11_misc_anywhere.
@@ -94,3 +108,4 @@ Print Assumptions C11_expand_empty_build.
 Print Assumptions C11_expand_empty.
 Print Assumptions C11_expand_empty_extend.
 Print Assumptions C11_events_of_unempty.
+Print Assumptions C11_example.
